@@ -33,13 +33,17 @@ GOALS = {'quick': ['same template merged twice', 'overlapping nested key',
                    'merge into a generated composite',
                    'composer generated again after a nested override',
                    'flow entry merged over an existing one',
-                   'overridden process replaced by a later merge'],
+                   'overridden process replaced by a later merge',
+                   'composite and loose parts merged in one call',
+                   'steps-only composite'],
          'thorough': ['same template merged twice', 'overlapping nested key',
                       'embedded two levels deep',
                       'merge into a generated composite',
                       'composer generated again after a nested override',
                       'flow entry merged over an existing one',
-                      'overridden process replaced by a later merge']}
+                      'overridden process replaced by a later merge',
+                      'composite and loose parts merged in one call',
+                      'steps-only composite']}
 STUBS = ['composer with two pure processes (symbolic constant timesteps, '
          'symbolic delta) and three flow steps (two in one layer, one '
          'dependent); recording emitter']
@@ -127,6 +131,42 @@ class CN(C):
                 'q': P({'ts': config['ts2'], 'd': g['d']})}
 
 
+def part_stepsonly(ctx, cfg):
+    """A composite that holds steps only (no process at all) loads through
+    every entry point."""
+    path = [(), ('a',)][ctx.choice('path', 2)]
+    v0 = ctx.int('v', -3, 3)
+
+    def make():
+        c = Composite({'steps': {'st': D(), 'st3': D3()},
+                       'flow': {'st': [], 'st3': [('st',)]},
+                       'topology': {'st': {'s': ('s',), 't': ('t',)},
+                                    'st3': {'t': ('t',)}},
+                       'state': {'s': {'x': v0}}})
+        out = Composite({})
+        out.merge(composite=c, path=path)
+        return out
+    stubs.reset_sink()
+    ctx.goal('steps-only composite')
+    results = {}
+    for tag, kw in (('composite', lambda c: {'composite': c}),
+                    ('parts', lambda c: dict(
+                        processes=c['processes'], steps=c['steps'],
+                        flow=c['flow'], topology=c['topology'],
+                        initial_state=c['state'])),
+                    ('store', lambda c: {'store': c.generate_store()})):
+        c = make()
+        e = Engine(emitter={'type': 'vsym_rec', 'tag': tag},
+                   display_info=False, **kw(c))
+        results[tag] = [stubs.leaves(r)
+                        for r in stubs.SINK['tags'].get(tag, [])]
+    ctx.claim('C16.entry_points', AND(
+        same(results['composite'], results['parts']),
+        same(results['composite'], results['store']),
+        len(results['composite']) == 1),
+        sig='steps-only-composite', info=lambda: dict(path=path, **results))
+
+
 def part_template(ctx, cfg):
     d0 = ctx.int('d', -3, 3)
     d1 = ctx.int('d', -3, 3)
@@ -182,7 +222,8 @@ def _same_tree(a, b):
 
 def jobs(tier):
     q = tier == 'quick'
-    return [dict(name='template', part='template',
+    return [dict(name='stepsonly', part='stepsonly', budget_s=60),
+            dict(name='template', part='template',
                  budget_s=100 if q else 600),
             dict(name='embed', part='embed', budget_s=100 if q else 900,
                  crosscheck=0 if q else 10),
@@ -326,7 +367,7 @@ def part_merge(ctx, cfg):
     n_template = 0
     steps = []
     for i in range(cfg['L']):
-        kind = ctx.choice('kind', 5)
+        kind = ctx.choice('kind', 6)
         if kind == 3 and i > 0:
             break
         path = PATHS[ctx.choice('at', len(PATHS))]
@@ -349,6 +390,27 @@ def part_merge(ctx, cfg):
             add = snap
             merged_in.append((comp, snap))
             steps.append(('fresh composite', path))
+        elif kind == 5:
+            # a composite (with a nested compartment) and loose processes for
+            # that compartment in ONE call: the composite handed in must not
+            # be changed
+            nested = Composite({
+                'processes': {'grp': {'n%d' % i: P({'ts': 1, 'd': 1})}},
+                'topology': {'grp': {'n%d' % i: {'s': ('s',), 't': ('t',)}}}})
+            snap = snapshot(nested)
+            pr = P({'ts': 1, 'd': 1})
+            target.merge(composite=nested,
+                         processes={'grp': {'loose%d' % i: pr}},
+                         topology={'grp': {'loose%d' % i: {'s': ('s',),
+                                                            't': ('t',)}}},
+                         path=path)
+            add = dict(snap)
+            add[('processes', ('grp', 'loose%d' % i))] = id(pr)
+            add[('topology', ('grp', 'loose%d' % i, 's'))] = repr(('s',))
+            add[('topology', ('grp', 'loose%d' % i, 't'))] = repr(('t',))
+            merged_in.append((nested, snap))
+            steps.append(('composite + loose parts in one call', path))
+            ctx.goal('composite and loose parts merged in one call')
         elif kind == 4:
             # a loose step with a flow entry under the key of a template step
             # that already has one: the later dependency list replaces it
